@@ -509,6 +509,8 @@ def run_handshake(chunks):
                 got = msg.split('; got ', 1)[1]
                 return 'fatal', ast.literal_eval(got)
             return 'other', msg
+        except Exception as e:  # noqa - anything else out of the real handshake code is a verdict, not a harness error
+            return 'other', 'raised %s: %s' % (type(e).__name__, str(e)[:120])
     finally:
         ssh.connect = old_connect
         sys.stderr = old_stderr
